@@ -1357,9 +1357,9 @@ class Store:
             for key, topology in insertion['topology'].items()]
         topology_updates.extend(topology_paths)
 
-        flow_paths = [
-            (root + (key,), flow)
-            for key, flow in insertion.get('flow', {}).items()]
+        # one entry per step, also for steps in nested compartments:
+        # the engine looks the dependencies up by the step's path
+        flow_paths = dict_to_paths(root, insertion.get('flow') or {})
         flow_updates.extend(flow_paths)
 
         self._apply_subschema_path(path)
